@@ -84,6 +84,11 @@ func jsonText(v interface{}) string {
 }
 
 // ---------- generators ----------
+// strings on which the codecs (base64 StdEncoding, hex, chainhash) take their rare branches
+var specialLeaves = []string{"=", "==", "a=", "ab=", "ab==", "abc=", "ab==ab==", "ab=\n=", "\r\n", "a\nb\nc\nd", "zz", "0", "00", "0g", "é", " ", "OP_RETURN 5cb6", "qqrxa0h9jqnc7v4wmj9ysetsp3y7w9l36u8gnnjulq",
+			// review round 2: URL-safe alphabet, data after the padding, other white space, padding in front / too much / none, 65 and 66 hex digits, 0x prefix, mixed-case and non-ASCII 64-character strings
+			"-_-_", "YWI=x", "\tYWJj", "YWJj\n", "YW\rJj", "=YWJj", "YWJj====", "YWJ", "YWJj YWJj", "YR==", "YWI", strings.Repeat("ab", 32) + "a", strings.Repeat("ab", 33), "0x" + strings.Repeat("ab", 31), strings.Repeat("aB", 32), strings.Repeat("0", 63) + "\xc3", strings.Repeat("\xc3\xa9", 32), strings.Repeat("A", 42) + "==", strings.Repeat("A", 43) + "B"}
+
 func randLeafString(r *vh.RNG) string {
 	h := func(n int) string { return hex.EncodeToString(r.Bytes(n)) }
 	b := func(n int) string { return base64.StdEncoding.EncodeToString(r.Bytes(n)) }
@@ -125,7 +130,7 @@ func randLeafString(r *vh.RNG) string {
 	case 16:
 		return "abcd" // valid hex and valid base64
 	case 17:
-		return vh.Pick(r, []string{"=", "==", "a=", "ab=", "ab==", "abc=", "ab==ab==", "ab=\n=", "\r\n", "a\nb\nc\nd", "zz", "0", "00", "0g", "é", " ", "OP_RETURN 5cb6", "qqrxa0h9jqnc7v4wmj9ysetsp3y7w9l36u8gnnjulq"})
+		return vh.Pick(r, specialLeaves)
 	case 18:
 		return strings.Repeat("0", 64)
 	case 19:
@@ -328,6 +333,13 @@ func runJSON(rng *vh.RNG) {
 		callUnmarshal("edge", []byte(t))
 		callUnmarshal("edge", []byte(`{"transaction":`+t+`}`))
 		callUnmarshal("edge", []byte(`{"hashes":`+t+`,"inputs":`+t+`,"blockLocatorHashes":`+t+`,"addresses":`+t+`}`))
+	}
+	// every special leaf as a map value, as the first and as a later element of a string array
+	for _, l := range specialLeaves {
+		for _, t := range []interface{}{map[string]interface{}{"a": l}, []interface{}{l, "ab"}, []interface{}{"ab", l, 1.0}} {
+			callRewriter("edge", "convertHex", t, true)
+			callRewriter("edge", "convertBase64", t, true)
+		}
 	}
 	callRewriter("structured", "convertHex", sample, true)
 	callRewriter("structured", "convertBase64", sample, true)
